@@ -557,8 +557,27 @@ func (s *Server) cmdFLUSHDB(msg *Message) (resp.Value, commandDetails, error) {
 
 	// >> Operation
 
-	// clear the entire database
+	s.flushDB()
 
+	// >> Response
+
+	var d commandDetails
+	d.command = "flushdb"
+	d.updated = true
+	d.timestamp = time.Now()
+
+	var res resp.Value
+	if msg.OutputType == JSON {
+		res = resp.StringValue(`{"ok":true,"elapsed":"` +
+			time.Since(start).String() + "\"}")
+	} else {
+		res = resp.SimpleStringValue("OK")
+	}
+	return res, d, nil
+}
+
+// flushDB clears the entire database
+func (s *Server) flushDB() {
 	// drop each collection
 	keys := s.cols.Keys()
 	for _, key := range keys {
@@ -599,22 +618,6 @@ func (s *Server) cmdFLUSHDB(msg *Message) (resp.Value, commandDetails, error) {
 	s.hooksOut.Clear()
 	s.hookTree.Clear()
 	s.hookCross.Clear()
-
-	// >> Response
-
-	var d commandDetails
-	d.command = "flushdb"
-	d.updated = true
-	d.timestamp = time.Now()
-
-	var res resp.Value
-	if msg.OutputType == JSON {
-		res = resp.StringValue(`{"ok":true,"elapsed":"` +
-			time.Since(start).String() + "\"}")
-	} else {
-		res = resp.SimpleStringValue("OK")
-	}
-	return res, d, nil
 }
 
 // SET key id [FIELD name value ...] [EX seconds] [NX|XX]
